@@ -1,6 +1,130 @@
-(* placeholder while the model is being validated; replaced by the real statements *)
+(* C26 -- The builder rejects ill-formed steps when the pipeline is built.
+   "For every valid pipeline prefix, a step that violates a documented construction rule is rejected when the step is added,
+    not later at evaluation.  The rules are: referring to an unknown column, changing a partition or ordering column, using a
+    column in the same extend that produces it, a non-aggregating or too-complex window or project expression, joining with
+    missing keys or with non-key common columns when that check is requested, and concatenating tables with different
+    columns.  Steps that follow all the rules are accepted."
+
+   Statements about the hand model Model/Builder.v (build_step: one builder step on declared columns; apply_step: the same
+   step on a prefix as the builder methods see it, with their skipping / collapsing / merging) against the rules written from
+   the property text in Model/BuilderSpec.v (violates).  T = the function-name classes of expr_rep.py and the operator
+   catalogue, read from /repo on every run: every theorem holds for EVERY T.  try_to_merge_ops is Gen/G_MergeOps.v
+   (regenerated from data_ops_utils.py).
+
+   FULL STATEMENT (false for the code as it is, see C26_rejects_iff_rule_violated_refuted):
+     forall T cols s, NoDup cols -> cols <> [] -> step_wf s -> (build_step T cols s = Reject <-> violates_rule T cols s).
+   What is proved: "rejected => a rule is violated" with no guard; "a rule is violated => rejected" for every rule except
+   R_not_aggregating on an operator application that the catalogue does not list as a window / aggregation function (the
+   builder has no such table; known finding C26-nonaggregating-operator); the iff under exactly that guard (`catalogued`). *)
 From Coq Require Import List Bool String.
-From DA Require Import Base.PyRT Model.Builder.
-Theorem C26_placeholder : forall T cols, build_step T cols (SDropCols nil) = Accept cols.
-Proof. reflexivity. Qed.
-Print Assumptions C26_placeholder.
+Import ListNotations.
+From DA Require Import Base.PyRT Model.Builder Model.BuilderSpec Proofs.BuilderP Proofs.BuilderSimplP.
+
+(* "Steps that follow all the rules are accepted": a rejection always has a violated rule behind it.  No guard. *)
+Theorem C26_rejected_only_if_rule_violated :
+  forall (T : tables) (cols : list string), NoDup cols -> cols <> [] ->
+  forall s : step, step_wf s -> build_step T cols s = Reject -> violates_rule T cols s.
+Proof. exact reject_violates. Qed.
+Print Assumptions C26_rejected_only_if_rule_violated.
+
+(* every violated rule leads to rejection when the step is added; the catalogue guard is needed for R_not_aggregating only *)
+Theorem C26_rule_violation_rejected_partial :
+  forall (T : tables) (cols : list string), NoDup cols -> cols <> [] ->
+  forall (s : step) (r : rule), step_wf s -> (r = R_not_aggregating -> catalogued T s) ->
+  violates T cols s r -> build_step T cols s = Reject.
+Proof. exact violates_rejected. Qed.
+Print Assumptions C26_rule_violation_rejected_partial.
+
+Theorem C26_rejects_iff_rule_violated_partial :
+  forall (T : tables) (cols : list string), NoDup cols -> cols <> [] ->
+  forall s : step, step_wf s -> catalogued T s ->
+  (build_step T cols s = Reject <-> violates_rule T cols s).
+Proof. exact rejects_iff_rule_violated. Qed.
+Print Assumptions C26_rejects_iff_rule_violated_partial.
+
+(* the unguarded statement is false: `project({"x": "a.abs()"}, group_by=["g"])` and
+   `extend({"x": "a.abs()"}, partition_by=["g"])` break R_not_aggregating and are accepted (they fail at evaluation) *)
+Theorem C26_rejects_iff_rule_violated_refuted :
+  exists (T : tables) (cols : list string) (s : step), NoDup cols /\ cols <> [] /\ step_wf s /\
+    violates T cols s R_not_aggregating /\ build_step T cols s <> Reject.
+Proof. exact refuted_project. Qed.
+Print Assumptions C26_rejects_iff_rule_violated_refuted.
+
+Theorem C26_rejects_iff_rule_violated_refuted_window :
+  exists (T : tables) (cols : list string) (s : step), NoDup cols /\ cols <> [] /\ step_wf s /\
+    violates T cols s R_not_aggregating /\ build_step T cols s <> Reject.
+Proof. exact refuted_window. Qed.
+Print Assumptions C26_rejects_iff_rule_violated_refuted_window.
+
+(* an accepted step declares exactly the documented columns, and they are again a valid column list *)
+Theorem C26_accept_gives_declared_columns :
+  forall (T : tables) (cols : list string), NoDup cols -> cols <> [] ->
+  forall (s : step) (c : list string), step_wf s -> build_step T cols s = Accept c ->
+  (NoDup c /\ c <> []) /\ (order_fixed s = true -> c = spec_cols cols s) /\ (forall x, In x c <-> In x (spec_cols cols s)).
+Proof. exact accept_gives_declared_columns. Qed.
+Print Assumptions C26_accept_gives_declared_columns.
+
+(* the verdict on the prefix as the builder sees it (order_rows without limit skipped, select_columns collapsed into an earlier
+   select/drop, extends merged by the regenerated try_to_merge_ops) = the verdict on the declared columns alone; when accepted,
+   the same set of columns *)
+Theorem C26_rejection_independent_of_simplification :
+  forall (T : tables) (p : prefix) (s : step), wf_prefix T p ->
+  same_outcome (apply_step T p s) (build_step T (declared p) s).
+Proof. exact simplification_independent. Qed.
+Print Assumptions C26_rejection_independent_of_simplification.
+
+(* ... and, unless two extends are merged, literally the same outcome (column order included) *)
+Theorem C26_simplification_keeps_outcome_and_column_order :
+  forall (T : tables) (p : prefix) (s : step), wf_prefix T p ->
+  (match s with SExtend _ _ _ _ => no_extend_on_top p | _ => True end) ->
+  apply_step T p s = build_step T (declared p) s.
+Proof. exact simplification_independent_eq. Qed.
+Print Assumptions C26_simplification_keeps_outcome_and_column_order.
+
+(* the property as stated, "for every valid pipeline prefix": on the simplified prefix a step is rejected iff it breaks a rule
+   with respect to the prefix's declared columns (inside the guard of the known finding) *)
+Theorem C26_on_every_prefix_rejects_iff_rule_violated_partial :
+  forall (T : tables) (p : prefix) (s : step), wf_prefix T p -> step_wf s -> catalogued T s ->
+  (apply_step T p s = Reject <-> violates_rule T (declared p) s).
+Proof. exact rejects_iff_rule_violated_on_prefix. Qed.
+Print Assumptions C26_on_every_prefix_rejects_iff_rule_violated_partial.
+
+(* ---- non-vacuity ---- *)
+Open Scope string_scope.
+Open Scope list_scope.
+(* a prefix t[a,b,g].extend({x: a.sum()}, partition_by=[g]).order_rows([a]) is well formed *)
+Example C26_wf_prefix_example :
+  wf_prefix T_example (POrder (PExtend (PNode ["a"; "b"; "g"]) [("x", EOp "sum" [ECol "a"])] ["g"] true [] []) None)%string.
+Proof.
+  simpl. split; [split; [repeat constructor; simpl; intuition congruence|discriminate]|].
+  split; [repeat constructor; simpl; tauto|]. exists (PList ["g"]%string). split; [reflexivity|]. split; [reflexivity|].
+  vm_compute. discriminate.
+Qed.
+(* on it, a second windowed extend over the same partition is MERGED through the skipped order_rows (columns x, y come from one
+   node), a step that follows the rules and is inside the guard is accepted, and one that changes the partition column is rejected *)
+Example C26_merge_through_skipped_order :
+  apply_step T_example (POrder (PExtend (PNode ["a"; "b"; "g"]) [("x", EOp "sum" [ECol "a"])] ["g"] true [] []) None)
+                       (SExtend [("y", EOp "max" [ECol "b"])] (PList ["g"]) [] [])%string
+  = Accept ["a"; "b"; "g"; "x"; "y"]%string.
+Proof. vm_compute. reflexivity. Qed.
+Example C26_guard_satisfiable :
+  step_wf (SExtend [("y", EOp "max" [ECol "b"])] (PList ["g"]) [] [])%string
+  /\ catalogued T_example (SExtend [("y", EOp "max" [ECol "b"])] (PList ["g"]) [] [])%string.
+Proof.
+  split; [discriminate|]. simpl. intros _ k op args [E|[]]. injection E as _ <- _. simpl. tauto.
+Qed.
+Example C26_change_partition_column_rejected :
+  build_step T_example ["a"; "b"; "g"]%string (SExtend [("g", EOp "max" [ECol "b"])] (PList ["g"]) [] [])%string = Reject.
+Proof. vm_compute. reflexivity. Qed.
+(* merging changes the ORDER of the declared columns (x is re-assigned): why the general statement compares column sets *)
+Example C26_merge_reorders_columns :
+  apply_step T_example (PExtend (PNode ["a"]) [("x", EVal); ("y", EVal)] [] false [] []) (SExtend [("x", EVal)] (PList []) [] [])%string
+    = Accept ["a"; "y"; "x"]%string
+  /\ build_step T_example ["a"; "x"; "y"]%string (SExtend [("x", EVal)] (PList []) [] [])%string = Accept ["a"; "x"; "y"]%string.
+Proof. split; vm_compute; reflexivity. Qed.
+(* regression (fixed in /repo 2b5c834): select_rows with an expression naming an unknown column is rejected when it is added,
+   also when the expression arrives as a parsed term *)
+Example C26_select_rows_unknown_column_rejected :
+  build_step T_example ["a"; "g"] (SSelectRows (EOp ">" [ECol "zz"; EVal])) = Reject
+  /\ violates T_example ["a"; "g"] (SSelectRows (EOp ">" [ECol "zz"; EVal])) R_unknown_column.
+Proof. split; [vm_compute; reflexivity|]. exists "zz". split; [simpl; tauto|]. simpl. intuition congruence. Qed.
